@@ -289,7 +289,7 @@ def run(rep, tier, seed):
     from harness import sexp_types, kernels
     # the octet kernels of the encoder are translated from the source on every run (gen/py2lean.py); the theorems
     # source_*_is_x690 are about those translations; the translation itself is compared with the code here
-    kernels.obligations(rep, ['encodeTag', 'encodeLength', 'toBytes', 'oidEncode', 'realBin', 'setOfSort', 'cerBoolEnc', 'berBoolEnc'])
+    kernels.obligations(rep, ['encodeTag', 'encodeLength', 'toBytes', 'oidEncode', 'realBin', 'setOfSort', 'cerBoolEnc', 'berBoolEnc', 'intEncode'])
     kernels.check(rep, drv, seed, 150 if tier == 'quick' else 4000)
     real_bases(rep, drv, tier)
     for ts, vs in CORPUS:
